@@ -303,13 +303,11 @@ def r12_3_seed(rep):
         it = render(lp["iter"])
         if not re.match(rf"^&?{re.escape(S)}\.params(\.iter\(\))?$", it):
             continue
-        names = [e for e in (lp["pat"].get("elems") or []) if e.get("k") == "p_ident"] if lp["pat"].get("k") == "p_tuple" else []
         second = lp["pat"]["elems"][1]["name"] if lp["pat"].get("k") == "p_tuple" and len(lp["pat"]["elems"]) == 2 and \
             lp["pat"]["elems"][1].get("k") == "p_ident" else None
         for c in synq.method_calls(lp["body"], "insert"):
             if render(c["recv"]) in ns_locals and len(c["args"]) == 1 and second is not None and mentions(c["args"][0], second):
                 seeded.append((render(c["recv"]), lp))
-        del names
     rep.ob("R12.3", "FunctionBindgen::new inserts the name of every `sig.params` entry into its Ns", len(seeded) == 1,
            f"{len(seeded)} loop(s) over {S}.params calling Ns::insert on the (pointer, name) pair's name", f.loc())
     lit = [n for n in synq.walk(f.body) if n.get("k") == "struct" and synq.short(n["path"]) == "FunctionBindgen"]
@@ -317,7 +315,11 @@ def r12_3_seed(rep):
     rep.ob("R12.3", "the seeded Ns is the `locals` of the constructed FunctionBindgen, built for the same signature",
            bool(seeded) and flds.get("locals") == seeded[0][0] and flds.get("sig") == S, f"locals: {flds.get('locals')}, sig: {flds.get('sig')}",
            f.loc())
-    # MIR cross-check: the insertion really is Ns::insert and sits in a loop
+    r12_3_retptrs(rep)
+
+
+def r12_3_seed_mir(rep):
+    """MIR cross-check: the insertion really is Ns::insert and sits in a loop"""
     c = mir.load("ws", "wit_bindgen_c", "rlib")
     mf = c.method("FunctionBindgen", "new")
     rep.saw(mf)
@@ -325,6 +327,8 @@ def r12_3_seed(rep):
     rep.ob("R12.3", "FunctionBindgen::new (MIR): Ns::insert is called inside the parameter loop",
            len(ins) >= 1 and all(mf.in_cycle(x.bb) for x in ins), f"{len(ins)} call(s) of Ns::insert", mf.loc(ins[0].bb) if ins else mf.loc())
 
+
+def r12_3_retptrs(rep):
     g = synq.find_fn(REL, "import_body_sync")
     rep.saw(f"{REL}::import_body_sync")
     st = g.body["stmts"]
@@ -458,6 +462,61 @@ def r12_3_sources(rep):
         rep.ob("R12.3", f"emit: the name pushed to `{r}` is a fresh `locals.tmp(..)` temporary", ok,
                f"`{nm}` = {render(init)[:50] if init is not None else '?'}", f.loc(c))
     rep.floor("R12.3", "pushes to self.payloads / self.borrows", n, 2)
+
+
+HOLE_DECL = re.compile(r"(?:^|[;{}\n])[ \t]*(?:const[ \t]+)?(?!(?:return|case|goto|else|break|continue)\b)(?:\{\w*\}|[A-Za-z_]\w*)(?:[ \t]*\*+[ \t]*|[ \t]+)\{(\w*)\}[ \t]*(?:=(?!=)|;)")
+
+
+def r12_3_declared(rep):
+    """every C local that a FunctionBindgen template declares under a computed name got that name from Ns::tmp"""
+    fs = [f for f in fns_inner_first() if f.self_ty == "FunctionBindgen"]
+    seen, n = set(), 0
+    uniq = {}
+    for f in fs:
+        for fm in synq.fmts(f.body):
+            if fm.template is None or tuple(fm.node["sp"]) in seen:
+                continue
+            seen.add(tuple(fm.node["sp"]))
+            t = fm.template.replace("{{", "\x01\x01").replace("}}", "\x02\x02")
+            holes = {off: (kind, key, e) for kind, key, e, off in fm.hole_exprs()}
+            for m in HOLE_DECL.finditer(t):
+                off = m.start(1) - 1
+                if off not in holes:
+                    continue
+                kind, key, e = holes[off]
+                nm = key if (kind == "name" and e is None) else (e["path"] if e is not None and e.get("k") == "path" else None)
+                n += 1
+                why, ok = "the declared name is not a plain local", False
+                if nm is not None:
+                    b = lookup(f.node, nm, fm.node)
+                    ok, why = fresh_origin(f, b, fm.node)
+                inst = f"{f.name}: the local declared by `{' '.join(fm.template.split())[:50]}` is named by Ns"
+                uniq[inst] = uniq.get(inst, 0) + 1
+                rep.ob("R12.3", inst + (f" (#{uniq[inst]})" if uniq[inst] > 1 else ""), ok, f"`{nm}`: {why}", f.loc(fm.node))
+    rep.floor("R12.3", "locals declared under a computed name by FunctionBindgen templates", n, 20)
+
+
+def fresh_origin(f, b, use, depth=0):
+    """(ok, why) — does binding `b` hold a name produced by `<Ns>.tmp(..)` (directly, or stored in self.payloads)?"""
+    if b is None or depth > 3:
+        return False, "unknown binding"
+    if b[0] == "let":
+        init = b[1].get("init")
+        r = render(init) if init is not None else ""
+        if init is not None and init.get("k") == "mcall" and init["method"] == "tmp" and re.search(r"\.(locals|names)$", render(init["recv"])):
+            return True, r[:50]
+        if re.search(r"^self\.payloads\.(pop\(\)\.unwrap\(\)|drain\()", r):
+            return True, "taken from self.payloads (filled with locals.tmp values only)"
+        return False, f"bound to `{r[:50]}`"
+    if b[0] == "pat" and b[1].get("k") == "for":
+        it = b[1]["iter"]
+        for x in synq.walk(it):
+            if x.get("k") == "path" and "::" not in x["path"]:
+                ok, why = fresh_origin(f, lookup(f.node, x["path"], b[1]), b[1], depth + 1)
+                if ok:
+                    return True, f"element of `{x['path']}` ({why})"
+        return False, f"loop variable over `{render(it)[:50]}`"
+    return False, f"{b[0]} binding"
 
 
 DECL = re.compile(r"(?m)(?:^|[;{}])[ \t]*(?:const[ \t]+|static[ \t]+)*[A-Za-z_][A-Za-z0-9_]*(?:[ \t]*\*+[ \t]*|[ \t]+)"
@@ -606,12 +665,19 @@ def r12_5(rep):
                len(b) == 1 and len(used) == 1 and mentions(used[0], b[0]) and
                any(mentions(used[0], nm) for nm, init, st in synq.bindings(obj.body) if init is not None and enc and contains(init, enc[0])),
                f"{render(used[0])[:120] if used else None}", obj.loc())
-    sym = [c for c in synq.method_calls(obj.body, "function") if any(
-        x.get("k") == "call" and synq.short(render(x["func"])) == "linking_symbol" for a in c["args"] for x in synq.walk(a))]
-    args = [render(x["args"][0]) for c in sym for a in c["args"] for x in synq.walk(a)
-            if x.get("k") == "call" and synq.short(render(x["func"])) == "linking_symbol"]
-    rep.ob("R12.5", "object(): the symbol table defines linking_symbol(<world name>)", len(sym) == 1 and args == [N],
-           f"linking_symbol({args})", obj.loc())
+    lcalls = [c for c in synq.fn_calls(obj.body, "linking_symbol")]
+    args = [render(c["args"][0]) for c in lcalls if c["args"]]
+    flows = 0
+    for c in synq.method_calls(obj.body, "function"):
+        for lc in lcalls:
+            if any(x is lc for a in c["args"] for x in synq.walk(a)):
+                flows += 1
+            else:
+                for nm, init, st in synq.bindings(obj.body):
+                    if init is not None and contains(init, lc) and any(mentions(a, nm) for a in c["args"]):
+                        flows += 1
+    rep.ob("R12.5", "object(): the symbol table defines linking_symbol(<world name>)", len(lcalls) == 1 and args == [N] and flows == 1,
+           f"linking_symbol({args}) reaches {flows} symbol-table entr{'y' if flows == 1 else 'ies'}", obj.loc())
     # ---- caller side
     calls_o = [c for c in synq.fn_calls(fin.body, "object") if "component_type_object" in c["func"]["path"]]
     calls_l = [c for c in synq.fn_calls(fin.body, "linking_symbol") if "component_type_object" in c["func"]["path"]]
@@ -659,6 +725,59 @@ def r12_5(rep):
            f"conditions: {[render(g['cond']) for g in guards]}", fin.loc(pushes[0]) if pushes else fin.loc())
 
 
+# ============================================================================ R12.6 every user-named member goes through to_c_ident; every section is written
+USES = {"type_record": 1, "type_variant": 1, "define_dtor": 2, "print_sig_params": 1, "print_sig_async_import_params": 2, "emit": 3}
+
+
+def r12_6(rep):
+    # declaration and use sites of user-named members / parameters must agree on the renaming
+    total = 0
+    for fname, least in USES.items():
+        fs = [f for f in synq.all_fns(REL) if f.name == fname and f.body is not None and (fname != "emit" or f.trait == "Bindgen")]
+        if len(fs) != 1:
+            raise AnchorMissing(f"{REL}: fn {fname}: {len(fs)} candidates")
+        f = fs[0]
+        rep.saw(f"{REL}::{fname}")
+        calls = synq.fn_calls(f.body, "to_c_ident")
+        total += len(calls)
+        rep.ob("R12.6", f"{fname}: user-chosen member / parameter names are written through to_c_ident", len(calls) >= least,
+               f"{len(calls)} call(s), {least} site(s) confirmed by hand", f.loc())
+        bare = [render(c)[:60] for c in synq.method_calls(f.body, "to_snake_case") if re.search(r"\.name$|^&?name$", render(c["recv"]))
+                and not any(x is c for t in calls for x in synq.walk(t))]
+        # a name that only ever appears behind a namespace prefix (`{ns}_{snake}`) cannot be a keyword: those are in type_* fns
+        if fname in ("emit", "define_dtor", "print_sig_params", "print_sig_async_import_params", "type_record"):
+            rep.ob("R12.6", f"{fname}: no user name is snake-cased directly (bypassing the keyword table)", not bare, f"{bare}", f.loc())
+    rep.floor("R12.6", "to_c_ident call sites in the generators", total, 13)
+    # every section of `Source` is carried over by append() and written by finish()
+    sd = [it for it in synq.items_of(REL, ("struct_def",)) if it["name"] == "Source"]
+    if len(sd) != 1:
+        raise AnchorMissing("struct Source not found")
+    fields = [x["name"] for x in sd[0]["fields"]]
+    rep.floor("R12.6", "sections of struct Source", len(fields), 9)
+    ap = synq.find_fn(REL, "append", self_ty="Source")
+    rep.saw(f"{REL}::Source::append")
+    other = [p for p in ap.params if p != "self"]
+    for fld in fields:
+        cs = [c for c in synq.method_calls(ap.body, "push_str") if render(c["recv"]) == f"self.{fld}"]
+        rep.ob("R12.6", f"Source::append carries the `{fld}` section over (into the same section)",
+               len(cs) == 1 and len(other) == 1 and render(cs[0]["args"][0]) == f"&{other[0]}.{fld}", f"{[render(c) for c in cs]}", ap.loc())
+    fin = synq.find_fn(REL, "finish", self_ty="C")
+    strs = {nm: render(init) for nm, init, st in synq.bindings(fin.body) if init is not None and re.search(r"Source::default\(\)$", render(init))}
+    outs = {}
+    for c in synq.method_calls(fin.body, "push"):
+        if render(c["recv"]) == "files" and len(c["args"]) == 2:
+            tpl = [x for x in synq.walk(c["args"][0]) if x.get("k") == "str"]
+            used = [v for v in strs if mentions(c["args"][1], v)]
+            if tpl and used:
+                outs[used[0]] = tpl[0]["v"]
+    for fld in fields:
+        want = [v for v, t in outs.items() if t.endswith(".h" if fld.startswith("h_") else ".c")]
+        cs = [c for c in synq.method_calls(fin.body, "push_str") if want and render(c["recv"]) == want[0] and
+              re.search(r"self\.src\." + fld + r"\b", render(c["args"][0]))]
+        rep.ob("R12.6", f"finish writes the `{fld}` section into the {'header' if fld.startswith('h_') else 'C source'} file", len(cs) == 1,
+               f"{[render(c)[:70] for c in cs]} (file buffers {outs})", fin.loc(cs[0]) if cs else fin.loc())
+
+
 def run(rep, tier):
     rep.describe(
         "other",
@@ -671,11 +790,14 @@ def run(rep, tier):
         "every parameter name into `locals`, import_body_sync inserts the return pointers before abi::call, raw wasm "
         "import/export symbols come from `names.tmp`, public names are inserted into `names`, every `prefix{counter}` "
         "identifier is a struct member or reaches a CSig field that is inserted into Ns, names handed to nested blocks "
-        "are `locals.tmp` values, and the identifiers the bindings add to an import wrapper's scope (return-pointer "
+        "are `locals.tmp` values, every local a FunctionBindgen template declares under a computed name was named by "
+        "`Ns::tmp` (directly or via `self.payloads`), and the identifiers the bindings add to an import wrapper's scope (return-pointer "
         "names, `ret_area`, `maybe_<name>`) cannot be produced from a user name. (R12.4) the typedef names used in "
         "casts inside wrapper bodies cannot be parameter names. (R12.5) the C file and the component-type object agree "
         "on the linking symbol, world id, resolve, string encoding, and the section name starts with the prefix "
-        "wit-component's metadata::decode searches for. NOT decided: that clang / wasm-ld / the encoder accept the "
+        "wit-component's metadata::decode searches for. (R12.6) every declaration / use site of a user-named member or "
+        "parameter calls to_c_ident (no direct snake-casing), Source::append carries every section over and finish() "
+        "writes every section into the header resp. the C file. NOT decided: that clang / wasm-ld / the encoder accept the "
         "output, type-name collisions between interfaces (`a:b/c-d` vs `a:b-c/d`), collisions of a user name with the "
         "fixed `result` / `arg` / `args` parameters of async imports, macro names of headers the user includes.",
         trusted_base=["syn parse of crates/c", "C17 keyword list transcribed from ISO/IEC 9899:2018 §6.4.1",
@@ -688,6 +810,7 @@ def run(rep, tier):
     rep.rule("R12.3", "C temporaries and bindings-chosen identifiers come from Ns or cannot collide with user names")
     rep.rule("R12.4", "typedef names used inside wrapper bodies cannot be parameter names")
     rep.rule("R12.5", "the C source and the component-type object describe the same world and link together")
+    rep.rule("R12.6", "user-named members are renamed consistently; every generated section reaches its output file")
     rep.saw(file=REL)
     holder = {}
 
@@ -699,10 +822,13 @@ def run(rep, tier):
         rep.guard("R12.1", "keywords", lambda: r12_1(rep, ci))
         rep.guard("R12.2", "unreachable arms", lambda: r12_2(rep, ci))
     rep.guard("R12.3", "seeding of Ns", lambda: r12_3_seed(rep))
+    rep.guard("R12.3", "seeding of Ns (MIR)", lambda: r12_3_seed_mir(rep))
     rep.guard("R12.3", "file-scope symbols", lambda: r12_3_symbols(rep))
     rep.guard("R12.3", "counter-suffixed identifiers", lambda: r12_3_counters(rep))
     rep.guard("R12.3", "names handed to nested blocks", lambda: r12_3_sources(rep))
+    rep.guard("R12.3", "locals declared by templates", lambda: r12_3_declared(rep))
     if ci is not None:
         rep.guard("R12.3", "identifiers added to an import wrapper's scope", lambda: r12_3_fixed(rep, ci))
         rep.guard("R12.4", "typedef names", lambda: r12_4(rep, ci))
     rep.guard("R12.5", "component-type object", lambda: r12_5(rep))
+    rep.guard("R12.6", "renaming sites and output sections", lambda: r12_6(rep))
